@@ -55,11 +55,16 @@ ScanAssoc(G, a, x, rc, rr) ==
       /\ (rc = "" \/ G.nodes[a.ends[q]].cls \in Subtree(rc))
       /\ (rr = "" \/ Roles(a.cls)[q] = rr)}}
 
+BadFilterClass(ac, rc) ==
+  (ac # "" /\ ac \notin Classes) \/ (rc # "" /\ rc \notin Classes)
+
+(* phase 2 over the referencing instances found by phase 1 *)
+ImplPhase2(G, x, rc, rr, refs) ==
+  UNION {ScanAssoc(G, G.assocs[j], x, rc, rr) : j \in refs}
+
 ImplAssocNames(G, x, ac, rc, rr, ro) ==     \* note the code's argument order
-  IF (ac # "" /\ ac \notin Classes) \/ (rc # "" /\ rc \notin Classes)
-  THEN IErr4
-  ELSE IOk(UNION {ScanAssoc(G, G.assocs[j], x, rc, rr) :
-                    j \in ImplRefPaths(G, x, ac, ro)})
+  IF BadFilterClass(ac, rc) THEN IErr4
+  ELSE IOk(ImplPhase2(G, x, rc, rr, ImplRefPaths(G, x, ac, ro)))
 
 (* provider methods; result S = node indexes *)
 ImplAssocOp(op, G, x, ac, rc, ro, rr) ==
